@@ -146,7 +146,7 @@ func SerializeKey(buf *bytes.Buffer, val value.Primary, flags *option.Flags) {
 		serializeInteger(buf, in.(*value.Integer).String())
 		value.Discard(in)
 	} else if f := value.ToFloat(val); !value.IsNull(f) {
-		serializeFloat(buf, f.(*value.Float).String())
+		serializeFloat(buf, normalizeFloatKey(f.(*value.Float).String()))
 		value.Discard(f)
 	} else if dt := value.ToDatetime(val, flags.DatetimeFormat, flags.GetTimeLocation()); !value.IsNull(dt) {
 		serializeDatetime(buf, dt.(*value.Datetime).Raw())
@@ -190,6 +190,14 @@ func serializeNull(buf *bytes.Buffer) {
 func serializeInteger(buf *bytes.Buffer, s string) {
 	buf.Write([]byte{91, 73, 93})
 	buf.WriteString(s)
+}
+
+// normalizeFloatKey gives the negative zero the key of zero: the two are equal as values.
+func normalizeFloatKey(s string) string {
+	if s == "-0" {
+		return "0"
+	}
+	return s
 }
 
 func serializeFloat(buf *bytes.Buffer, s string) {
